@@ -48,7 +48,7 @@ func init() {
 		ID:          "C03",
 		Explanation: "Decides the structural facts schema evolution rests on: (T.skip-exh) Skip has a clause for every wire type any codec can report; (BOUND) Skip meets 0 <= n <= len(data) and never over-runs, and in every struct-like reader (StructCodec.Read, TimeCodec.Read, TimeCompatCodec.Read, Descriptor.readAsStruct/readAsMapEntry) the unknown-index path calls Skip on the rest of the data with the wire type read from the tag and advances the offset by exactly Skip's result (X.skipadvance); (X.who.name) field names are touched only by the builder and Descriptor(), so renames cannot change bytes; (T.anyorder) the struct field loop carries only the offset, so decoding is driven by the index found in the data, not by position; (T.byindex) the field table is indexed by the index read from the data.",
 		NotDecided:  "That a shared index receives the same value in S and S' (value-level); framing agreement between each codec's writer and Skip's grammar is checked under C05/C02 (S.skip).",
-		Assumptions: []string{"A1", "A2", "A3", "A4", "A5"},
+		Assumptions: []string{"A1", "A2", "A3", "A4", "A5", "A6"},
 		Run: func(c *Ctx) {
 			B := decodeBound(c.P)
 			ruleSkipExhaustive(c)
@@ -62,6 +62,9 @@ func init() {
 					return false
 				}})
 			ruleSkipAdvance(c, B)
+			ruleTightGuards(c, B, nil)
+			c.Floor("X.tightguard", 20)
+			ruleFullScan(c)
 			ruleFieldNameUse(c)
 			ruleAnyOrder(c, B)
 			ruleWireConsts(c)
